@@ -9,7 +9,7 @@ EXPLANATION = (
     "predicates (decision tables incl. operand signs); (R2) infeasible statuses report NaN objectives, "
     "is_infeasible = exactly the four infeasible variants; (R3) unscale normalises by kappa on the infeasible "
     "branch with one common factor for x,s,z; (R4/R5) units: certificate vectors and res_*_inf are free of d,e; "
-    "partial residual definitions. The c-inconsistency of the infeasibility comparisons is a recorded known "
+    "partial residual definitions (signed forms rx_inf = -A'z, rz_inf = Ax + s, Px); (R6) the units premises (see C01.R9). The c-inconsistency of the infeasibility comparisons is a recorded known "
     "finding. NOT decided: z in K*, s in K (numerics).")
 ASSUMPTIONS = [
     'rustc MIR construction and trait resolution are correct',
